@@ -315,7 +315,7 @@ func runCheck(o checkOpts) int {
 		solverTime += ob.Secs
 		if ob.isCover {
 			vacuity = append(vacuity, map[string]string{"cover": ob.Name, "answer": ob.Result})
-			if ob.Result == "unsat" {
+			if ob.Result == "unsat" && (ob.mustHold || strings.HasSuffix(ob.Name, ":cover:requires")) {
 				violations++
 				reportViolation(o, replayDir, ob, "vacuous: "+ob.Text+" (cover query is unsatisfiable)", nil)
 			}
